@@ -19,11 +19,16 @@ First(clauses) ==  \* clauses: sequence of <<name, BOOLEAN>>; name of the first 
   ELSE clauses[CHOOSE i \in DOMAIN clauses : ~clauses[i][2] /\ \A j \in DOMAIN clauses : ~clauses[j][2] => i <= j][1]
 
 (* ---------------- C10: tiled-strided layouts ---------------- *)
-LcbOK(c) ==
-  LET blk == c.lcb.result  st == c.lcb.start IN
+LcbOK1(L, q) ==
+  LET blk == q.result  st == q.start IN
   \/ (Len(blk) = 1 /\ blk[1].b = 1 /\ blk[1].s = st)
   \/ /\ IsChain(blk, 1, st)
-     /\ \A k \in DOMAIN blk : blk[k].b > 1 => SameSlot(c.L, c.lcb.other, blk[k])
+     /\ \A k \in DOMAIN blk : blk[k].b > 1 => SameSlot(L, q.other, blk[k])
+LcbOK(c) == LcbOK1(c.L, c.lcb) /\ \A k \in DOMAIN c.lcbs : LcbOK1(c.lcbs[k].self, c.lcbs[k])
+(* layouts the real code calls equal denote the same address function (and have the same offset) *)
+EqOK(c) == \A k \in DOMAIN c.eqs : c.eqs[k].equal = 1 =>
+             /\ Shape(c.eqs[k].other) = Shape(c.L) /\ c.eqs[k].other.off = c.L.off
+             /\ \A i \in Box(Shape(c.L)) : Addr(c.eqs[k].other, i) = Addr(c.L, i)
 
 TslStatic(c) ==
   LET L == c.L  box == Box(Shape(L)) IN
@@ -39,7 +44,8 @@ TslStatic(c) ==
     <<"AttributePrintParse", c.attr_reparsed = L>>,       \* through the IR attribute printer and parser (memref types in printed IR)
     <<"PrintParseCanon", c.canon_reparsed = c.canon>>,
     <<"FromStrides", c.fs.result = FromStrides(c.fs.strides, c.fs.tilebounds, c.fs.off)>>,
-    <<"CommonContiguousBlock", LcbOK(c)>>
+    <<"CommonContiguousBlock", LcbOK(c)>>,
+    <<"EqualMeansSameFunction", EqOK(c)>>
   >>)
 
 TslDynamic(c) ==
